@@ -147,7 +147,8 @@ def health_jobs(tier):
             J.append(dict(name="health_%s_srv%d" % (names[op], nsrv), harness="../machine/health_step.c",
                       defines=["-DOP=%d" % op, "-DNSRV=%d" % nsrv], real=[l for l in LIB if not l.endswith("ares_send.c")],
                       support=SUP, unwind=8, backend="cadical", timeout=1800, mem_gb=8, unwindset=UW,
-                      witnesses=["end"] + (["probe sent", "no probe"] if op == 2 else []),
+                      witnesses=["end"] + (["probe sent", "no probe", "probe ended", "probe completed later"] if op == 2 else []),
+                      kf_group="health_probe" if op == 2 else None,
                       bound="ONE %s on %d servers with failure counters 0..3, probe-pending flags and retry times symbolic, "
                             "retry chance 0..3, retry delay 0..100 s" % (names[op], nsrv)))
     return J
